@@ -1,18 +1,31 @@
 package checks
 
 import (
+	"encoding/json"
 	"fmt"
 	"os"
 )
 
-// Replay re-runs a recorded scenario. Input-determined witnesses carry everything needed in the
-// replay file; the generic path re-runs the check with the recorded seed and tier.
+// Replay prints a recorded witness and re-runs the check at the recorded seed and tier. Case lists are
+// a pure function of (seed, tier), so input-determined violations (C05, C07, C09, C10, C11, C18, C19)
+// reappear; for schedule-dependent ones the recorded history is the witness (no record/replay tool here).
 func Replay(id, path string) int {
 	b, err := os.ReadFile(path)
 	if err != nil {
 		fmt.Fprintln(os.Stderr, err)
 		return 2
 	}
-	fmt.Printf("replay %s:\n%s\n", id, string(b))
-	return Run(id, "quick")
+	var w struct {
+		Seed      int64  `json:"seed"`
+		Tier      string `json:"tier"`
+		Signature string `json:"signature"`
+		What      string `json:"what"`
+	}
+	json.Unmarshal(b, &w)
+	fmt.Printf("replay %s: signature %q recorded at seed %d, tier %s\n%s\n\n", id, w.Signature, w.Seed, w.Tier, w.What)
+	if w.Tier != "quick" && w.Tier != "thorough" {
+		w.Tier = "quick"
+	}
+	os.Setenv("VERIF_SEED", fmt.Sprint(w.Seed))
+	return Run(id, w.Tier)
 }
